@@ -124,6 +124,8 @@ func (t *rtTask) Start() {
 // and whose queue has room for only a few of them - over and over. Whoever gets nil must have its task started once the
 // worker is free again; whoever does not fit gets ErrTimeout and its task never runs. The window in which two producers
 // both believe the last slot is theirs is a few nanoseconds wide: it is reached by the number of rounds.
+var lostOnce atomic.Bool
+
 func TestLastFreeSlotRace(t *testing.T) {
 	rt.Check(t, 6, 300, func(t *rapid.T) {
 		queue := rapid.IntRange(1, 3).Draw(t, "queueSize")
@@ -133,7 +135,10 @@ func TestLastFreeSlotRace(t *testing.T) {
 		for r := 0; r < rounds; r++ {
 			ctx, cancel := context.WithCancel(context.Background())
 			tl := tasklane.New(ctx, lanes, queue)
-			tl.SetTimeout(2 * time.Millisecond)
+			// the blocking tasks go in with a timeout that cannot expire: on a machine loaded far beyond its cores a goroutine
+			// may lose the processor for longer than two milliseconds between arming PushTask's timer and the select that
+			// looks at it, and then even a push into an empty queue can come back as a timeout (6.2)
+			tl.SetTimeout(10 * time.Minute)
 			gate := make(chan struct{})
 			blockers := make([]*rtTask, lanes)
 			for l := range blockers { // every worker is busy, so nothing is taken out of the target lane's queue for now
@@ -147,6 +152,7 @@ func TestLastFreeSlotRace(t *testing.T) {
 					runtime.Gosched()
 				}
 			}
+			tl.SetTimeout(2 * time.Millisecond) // the racing producers: whoever does not fit gives up quickly
 			tasks := make([]*rtTask, producers)
 			var arrived atomic.Int32
 			var wg sync.WaitGroup
@@ -156,7 +162,10 @@ func TestLastFreeSlotRace(t *testing.T) {
 				go func(p int) {
 					defer wg.Done()
 					arrived.Add(1)
-					for arrived.Load() < int32(producers) { // spin barrier: all producers call PushTask at the same moment
+					for spin := 0; arrived.Load() < int32(producers); spin++ { // spin barrier: all producers call PushTask at the same moment
+						if spin > 5000 {
+							runtime.Gosched() // on a machine that is busier than this test assumes, do not starve the others
+						}
 					}
 					tasks[p].err = tl.PushTask(tasks[p], 0)
 				}(p)
@@ -169,7 +178,14 @@ func TestLastFreeSlotRace(t *testing.T) {
 					accepted++
 				}
 			}
-			deadline := time.Now().Add(5 * time.Second)
+			// "eventually": the tasks are instant and the worker is free, so this takes microseconds; the bound only ends the
+			// wait for a task that was lost, and is far beyond anything a loaded machine needs (once a loss has been seen,
+			// the repetitions that minimise the case wait less)
+			patience := 90 * time.Second
+			if lostOnce.Load() {
+				patience = 5 * time.Second
+			}
+			deadline := time.Now().Add(patience)
 			started := func() (n int) {
 				for _, tk := range tasks {
 					if tk.err == nil && tk.count.Load() > 0 {
@@ -190,7 +206,8 @@ func TestLastFreeSlotRace(t *testing.T) {
 				case tk.err != nil && c > 0:
 					t.Fatalf("round %d: task of producer %d was started although PushTask returned %v", r, p, tk.err)
 				case tk.err == nil && c == 0:
-					t.Fatalf("round %d: %d producers raced for the free slots of one lane (queueSize %d, laneSize %d): PushTask returned nil for %d tasks, but only %d were started within 5s of the worker becoming free", r, producers, queue, lanes, accepted, started())
+					lostOnce.Store(true)
+					t.Fatalf("round %d: %d producers raced for the free slots of one lane (queueSize %d, laneSize %d): PushTask returned nil for %d tasks, but only %d were started within %s of the worker becoming free", r, producers, queue, lanes, accepted, started(), patience)
 				}
 			}
 			cancel()
@@ -240,7 +257,11 @@ func TestRealTimeStress(t *testing.T) {
 		}
 		wg.Wait()
 		// with a live context every accepted task is eventually started: give the lane generous real time
-		deadline := time.Now().Add(8 * time.Second)
+		patience := 90 * time.Second // far beyond what a loaded machine needs for a handful of sub-millisecond tasks; it only ends the wait for a task that was lost
+		if lostOnce.Load() {
+			patience = 8 * time.Second
+		}
+		deadline := time.Now().Add(patience)
 		pending := func() int {
 			n := 0
 			for _, tk := range all {
@@ -263,7 +284,8 @@ func TestRealTimeStress(t *testing.T) {
 			case tk.err != nil && c > 0:
 				t.Fatalf("real clock: task #%d was started although PushTask returned %v (lanes=%d queue=%d timeout=%s producers=%d taskDuration=%s)", i, tk.err, lanes, queue, timeout, producers, taskDur)
 			case tk.err == nil && c == 0:
-				t.Fatalf("real clock: accepted task #%d has not been started 8s after the last push, with a live context (lanes=%d queue=%d timeout=%s producers=%d, every %d-th task panics)", i, lanes, queue, timeout, producers, panicEvery)
+				lostOnce.Store(true)
+				t.Fatalf("real clock: accepted task #%d has not been started %s after the last push, with a live context (lanes=%d queue=%d timeout=%s producers=%d, every %d-th task panics)", i, patience, lanes, queue, timeout, producers, panicEvery)
 			}
 			if tk.err == nil {
 				accepted++
